@@ -349,7 +349,7 @@ def run_case(case, ctx):
     cache = _S['cache']
     if kind == 'history':
         ctx.count('histories')
-        objs, last_point, last_result = {}, {}, {}
+        objs, last_point, last_result, arrs = {}, {}, {}, {}
         had_warm = had_reuse_diff = False
         for op in case['ops']:
             name = op[0]
@@ -371,7 +371,18 @@ def run_case(case, ctx):
                     objs[i] = build(nd, pool[i])
                 k = op[2] if name == 'call' else 1 - last_point.get(i, 0)
                 h0 = cache.hits
-                got = call(objs[i], pool[i]['points'][k])
+                pt = pool[i]['points'][k]
+                if isinstance(pt, list):
+                    # the caller keeps one array per point and hands that same array to every call at the point
+                    if (i, k) not in arrs:
+                        arrs[(i, k)] = np.array(pt, dtype=float)
+                    got = call(objs[i], arrs[(i, k)])
+                    ctx.count('callers_array_unchanged_asserted')
+                    if arrs[(i, k)].tobytes() != np.array(pt, dtype=float).tobytes():
+                        ctx.reject('callers_array_modified', observed=arrs[(i, k)], expected=pt, detail=dict(config=pool[i]))
+                        return
+                else:
+                    got = call(objs[i], pt)
                 warm = cache.hits > h0
                 ctx.count('warm_cache_calls' if warm else 'cold_cache_calls')
                 ctx.count('history_calls_compared')
